@@ -1,3 +1,198 @@
 // Kani harnesses (child module of crates/axmos-db/src/runtime/ops/index_scan.rs).  See /verif/HARNESS_GUIDE.md
+// C06 (index scan == table scan), half (a): `IndexScan::evaluate_bounds` (private associated fn, no `self`) against
+// hand-built bounds for every (range_start | range_end) x (inclusive | exclusive) combination.
+//   range_start bound {c, inclusive}  is tested with expected_ordering = Less    (see evaluate_index_predicate)
+//   range_end   bound {c, inclusive}  is tested with expected_ordering = Greater
+// Laws, for key value v and literal c:
+//   start/exclusive <=> v > c    start/inclusive <=> v >= c    end/exclusive <=> v < c    end/inclusive <=> v <= c
+//   start/inclusive && end/inclusive (what `col = c` produces) <=> v = c          NULL on either side => rejected
+// Two oracles: (1) the DataType comparison operators, i.e. exactly what the table-scan Filter evaluates
+// (`eval_binary_op`: `left > right` ...; C05.binop_delegates) - this is the C06 statement and holds at full width;
+// (2) the mathematical order - holds where DataType's f64 comparison is exact (|v| <= 2^53), the complement region is
+// isolated (same root cause as C19.cmp_matches_math / C05.binop[..][BigInt,BigInt/big]).
+// Half (b), the `op -> (vector, inclusive)` mapping of FilterToIndexScanRule::collect_bounds, is in c06_rules.rs.
 #![allow(unused_imports, dead_code, clippy::all)]
 use super::*;
+use crate::types::{DataType, Float64, Int32, Int64};
+
+fn v_int() -> DataType {
+    DataType::Int(Int32(kani::any()))
+}
+fn v_bigint() -> DataType {
+    DataType::BigInt(Int64(kani::any()))
+}
+fn v_double() -> DataType {
+    DataType::Double(Float64(kani::any()))
+}
+const P53: i128 = 1i128 << 53;
+fn mathval(d: &DataType) -> Result<i128, f64> {
+    match d {
+        DataType::Int(v) => Ok(v.0 as i128),
+        DataType::BigInt(v) => Ok(v.0 as i128),
+        DataType::Double(v) => Err(v.0),
+        _ => unreachable!(),
+    }
+}
+fn in53(d: &DataType) -> bool {
+    match mathval(d) {
+        Ok(n) => n >= -P53 && n <= P53,
+        Err(_) => true,
+    }
+}
+fn cmp_int_f64(n: i128, x: f64) -> Option<Ordering> {
+    if x.is_nan() {
+        return None;
+    }
+    if x >= 18446744073709551616.0 {
+        return Some(Ordering::Less);
+    }
+    if x <= -18446744073709551616.0 {
+        return Some(Ordering::Greater);
+    }
+    let t = x.trunc();
+    let ti = t as i128;
+    if n < ti {
+        Some(Ordering::Less)
+    } else if n > ti {
+        Some(Ordering::Greater)
+    } else if x > t {
+        Some(Ordering::Less)
+    } else if x < t {
+        Some(Ordering::Greater)
+    } else {
+        Some(Ordering::Equal)
+    }
+}
+/// mathematical order of v relative to c (None: unordered, i.e. NaN)
+fn mathcmp(a: &DataType, b: &DataType) -> Option<Ordering> {
+    match (mathval(a), mathval(b)) {
+        (Ok(x), Ok(y)) => Some(x.cmp(&y)),
+        (Err(x), Err(y)) => x.partial_cmp(&y),
+        (Ok(n), Err(x)) => cmp_int_f64(n, x),
+        (Err(x), Ok(n)) => cmp_int_f64(n, x).map(|o| o.reverse()),
+    }
+}
+/// the five bound tests for key v against literal c: (start_ex, start_in, end_ex, end_in, eq)
+struct Tests {
+    start_ex: bool,
+    start_in: bool,
+    end_ex: bool,
+    end_in: bool,
+    eq: bool,
+}
+fn run_tests(v: &DataType, c: &DataType) -> Tests {
+    let row = Row::from(vec![v.clone()]);
+    let ex = [IndexRangeBound { inclusive: false, value: c.clone(), col_idx: 0 }];
+    let inc = [IndexRangeBound { inclusive: true, value: c.clone(), col_idx: 0 }];
+    let t = Tests {
+        start_ex: IndexScan::evaluate_bounds(&row, &ex, Ordering::Less),
+        start_in: IndexScan::evaluate_bounds(&row, &inc, Ordering::Less),
+        end_ex: IndexScan::evaluate_bounds(&row, &ex, Ordering::Greater),
+        end_in: IndexScan::evaluate_bounds(&row, &inc, Ordering::Greater),
+        // `col = c` pushes the same inclusive bound on both vectors; evaluate_index_predicate is their conjunction
+        eq: IndexScan::evaluate_bounds(&row, &inc, Ordering::Less) && IndexScan::evaluate_bounds(&row, &inc, Ordering::Greater),
+    };
+    std::mem::forget(row);
+    std::mem::forget(ex);
+    std::mem::forget(inc);
+    t
+}
+/// oracle (1): what the Filter operator computes for `v op c`
+fn law_same_as_filter(t: &Tests, v: &DataType, c: &DataType) {
+    assert!(t.start_ex == (v > c), "gt_bound_same_as_filter");
+    assert!(t.start_in == (v >= c), "ge_bound_same_as_filter");
+    assert!(t.end_ex == (v < c), "lt_bound_same_as_filter");
+    assert!(t.end_in == (v <= c), "le_bound_same_as_filter");
+    assert!(t.eq == (v == c), "eq_bounds_same_as_filter");
+}
+/// oracle (2): SQL semantics on the mathematical values
+fn law_math(t: &Tests, m: Option<Ordering>) {
+    let (lt, eq, gt) = (m == Some(Ordering::Less), m == Some(Ordering::Equal), m == Some(Ordering::Greater));
+    assert!(t.start_ex == gt, "gt_bound_accepts_iff_v_gt_c");
+    assert!(t.start_in == (gt || eq), "ge_bound_accepts_iff_v_ge_c");
+    assert!(t.end_ex == lt, "lt_bound_accepts_iff_v_lt_c");
+    assert!(t.end_in == (lt || eq), "le_bound_accepts_iff_v_le_c");
+    assert!(t.eq == eq, "eq_bounds_accept_iff_v_eq_c");
+}
+macro_rules! hbounds {
+    ($name:ident, $v:expr, $c:expr, |$x:ident, $y:ident| $pre:expr, $math:expr) => {
+        #[kani::proof]
+        #[kani::unwind(4)]
+        fn $name() {
+            let $x = $v;
+            let $y = $c;
+            kani::assume($pre);
+            kani::cover!(true, "reach");
+            let t = run_tests(&$x, &$y);
+            law_same_as_filter(&t, &$x, &$y);
+            if $math {
+                law_math(&t, mathcmp(&$x, &$y));
+            }
+        }
+    };
+}
+// @obl harness=c06_bounds_bigint_bigint id=C06.index_bounds[=,<,<=,>,>=][key BigInt, literal BigInt/53] tier=quick funcs="IndexScan::evaluate_bounds,DataType::partial_cmp" bounds="i64 key and literal within +-2^53; all four (side, inclusive) combinations and the = pair" unwind=4
+hbounds!(c06_bounds_bigint_bigint, v_bigint(), v_bigint(), |v, c| in53(&v) && in53(&c), true);
+// @obl harness=c06_bounds_int_int id=C06.index_bounds[=,<,<=,>,>=][key Int, literal Int] tier=quick funcs="IndexScan::evaluate_bounds,DataType::partial_cmp" bounds="all i32 keys and literals" unwind=4
+hbounds!(c06_bounds_int_int, v_int(), v_int(), |v, c| true, true);
+// @obl harness=c06_bounds_double_double id=C06.index_bounds[=,<,<=,>,>=][key Double, literal Double] tier=quick funcs="IndexScan::evaluate_bounds,DataType::partial_cmp" bounds="all f64 keys and literals (NaN never selected, -0.0 = 0.0)" unwind=4
+hbounds!(c06_bounds_double_double, v_double(), v_double(), |v, c| true, true);
+// @obl harness=c06_bounds_int_bigint id=C06.index_bounds[=,<,<=,>,>=][key Int, literal BigInt/53] tier=quick funcs="IndexScan::evaluate_bounds,DataType::partial_cmp" bounds="all i32 keys, i64 literal within +-2^53" unwind=4
+hbounds!(c06_bounds_int_bigint, v_int(), v_bigint(), |v, c| in53(&c), true);
+// @obl harness=c06_bounds_bigint_double id=C06.index_bounds[=,<,<=,>,>=][key BigInt/53, literal Double] tier=quick funcs="IndexScan::evaluate_bounds,DataType::partial_cmp" bounds="i64 key within +-2^53, every f64 literal (e.g. col > 2.5)" unwind=4
+hbounds!(c06_bounds_bigint_double, v_bigint(), v_double(), |v, c| in53(&v), true);
+// full width: the index path and the filter path agree even where both are inexact
+// @obl harness=c06_bounds_bigint_full id=C06.index_bounds_same_as_filter[key BigInt, literal BigInt|Double] tier=quick funcs="IndexScan::evaluate_bounds,DataType::partial_cmp" bounds="all i64 keys; all i64 and all f64 literals" unwind=4
+#[kani::proof]
+#[kani::unwind(4)]
+fn c06_bounds_bigint_full() {
+    let (v, c, d) = (v_bigint(), v_bigint(), v_double());
+    kani::cover!(true, "reach");
+    let t = run_tests(&v, &c);
+    law_same_as_filter(&t, &v, &c);
+    let t = run_tests(&v, &d);
+    law_same_as_filter(&t, &v, &d);
+}
+// region where the bound test (and the filter alike) deviates from the mathematical order
+// @obl harness=c06_bounds_bigint_big id=C06.index_bounds[=,<,<=,>,>=][key BigInt, literal BigInt/big] tier=quick funcs="IndexScan::evaluate_bounds,DataType::partial_cmp" bounds="i64 key / literal with some |x| > 2^53" unwind=4
+#[kani::proof]
+#[kani::unwind(4)]
+fn c06_bounds_bigint_big() {
+    let (v, c) = (v_bigint(), v_bigint());
+    kani::assume(!(in53(&v) && in53(&c)));
+    kani::cover!(true, "reach");
+    let t = run_tests(&v, &c);
+    law_math(&t, mathcmp(&v, &c));
+}
+// NULL key or NULL literal: never selected (v op NULL and NULL op c are UNKNOWN)
+// @obl harness=c06_bounds_null id=C06.index_bounds[=,<,<=,>,>=][NULL key | NULL literal] tier=quick funcs="IndexScan::evaluate_bounds,DataType::partial_cmp" bounds="NULL key against BigInt / Double literal; BigInt key against NULL literal; NULL against NULL" unwind=4
+#[kani::proof]
+#[kani::unwind(4)]
+fn c06_bounds_null() {
+    kani::cover!(true, "reach");
+    let n = DataType::Null;
+    let none = |t: Tests| !t.start_ex && !t.start_in && !t.end_ex && !t.end_in && !t.eq;
+    assert!(none(run_tests(&n, &v_bigint())), "null_key_never_selected");
+    assert!(none(run_tests(&n, &v_double())), "null_key_never_selected");
+    assert!(none(run_tests(&v_bigint(), &n)), "null_literal_never_selects");
+    assert!(none(run_tests(&n, &n)), "null_literal_never_selects");
+}
+// several bounds: conjunction over the bounds, each tested on its own column; no bounds => accept
+// @obl harness=c06_bounds_conjunction id=C06.index_bounds_conjunction[2 columns] tier=thorough funcs="IndexScan::evaluate_bounds" bounds="row of 2 Int keys (all i32), two Int bounds on columns 0 and 1 (any inclusive flags), range_start side (range_end runs the same loop, see the single-bound harnesses); empty bound list" unwind=3
+#[kani::proof]
+#[kani::unwind(3)]
+fn c06_bounds_conjunction() {
+    let (v0, v1, c0, c1): (i32, i32, i32, i32) = (kani::any(), kani::any(), kani::any(), kani::any());
+    let (i0, i1): (bool, bool) = (kani::any(), kani::any());
+    kani::cover!(true, "reach");
+    let row = Row::from(vec![DataType::Int(Int32(v0)), DataType::Int(Int32(v1))]);
+    let both = [
+        IndexRangeBound { inclusive: i0, value: DataType::Int(Int32(c0)), col_idx: 0 },
+        IndexRangeBound { inclusive: i1, value: DataType::Int(Int32(c1)), col_idx: 1 },
+    ];
+    let s = IndexScan::evaluate_bounds(&row, &both, Ordering::Less);
+    assert!(s == ((v0 > c0 || (i0 && v0 == c0)) && (v1 > c1 || (i1 && v1 == c1))), "start_bounds_accept_iff_every_column_satisfies_its_bound");
+    let empty: [IndexRangeBound; 0] = [];
+    assert!(IndexScan::evaluate_bounds(&row, &empty, Ordering::Less), "no_bounds_accepts");
+    std::mem::forget((row, both));
+}
